@@ -341,7 +341,7 @@ again:
     if (P->token == P->te) {
         /* We keep returning end of token to help binary operators etc., if any. */
         --P->token;
-        assert(0);
+        /* Reachable with a schema that ends inside a declaration, e.g. after `root_type`. */
         switch (P->token->id) {
         case LEX_TOK_EOS: case LEX_TOK_EOB: case LEX_TOK_EOF:
             P->token->id = LEX_TOK_EOF;
